@@ -94,25 +94,57 @@ type rec struct {
 	val  uint64
 }
 
+// farPath: when set, records beyond the part of the file that was read (the first maxRead bytes) are
+// fetched from this file with ReadAt (a damaged limit can place a record just below 4 GiB)
+var farPath string
+
+func fetchFar(off uint32, n uint32) []byte {
+	if farPath == "" {
+		return nil
+	}
+	f, err := os.Open(farPath)
+	if err != nil {
+		return nil
+	}
+	defer f.Close()
+	b := make([]byte, n)
+	if _, err := f.ReadAt(b, int64(off)); err != nil {
+		return nil
+	}
+	return b
+}
+
 func linked(d []byte, H uint32) []rec {
 	var rs []rec
 	seen := map[uint32]bool{}
 	for b := uint32(0); b < numHash; b++ {
 		off := le32(d, H+4+4*b)
 		for n := 0; off != 0 && n <= len(d)/unit; n++ {
-			if off < H+4+4*numHash || off%8 != 0 || uint64(off)+16 > uint64(len(d)) || seen[off] {
+			if off < H+4+4*numHash || off%8 != 0 || seen[off] {
 				break
 			}
-			nl := le32(d, off+8) & 0x00ffffff
-			if nl == 0 || uint64(off)+16+uint64(nl) > uint64(len(d)) {
+			var hd []byte // the 16 bytes value, length, next
+			if uint64(off)+16 <= uint64(len(d)) {
+				hd = d[off : off+16]
+			} else if hd = fetchFar(off, 16); hd == nil {
+				break
+			}
+			nl := binary.LittleEndian.Uint32(hd[8:]) & 0x00ffffff
+			if nl == 0 || nl > 1<<20 {
+				break
+			}
+			var nb []byte
+			if uint64(off)+16+uint64(nl) <= uint64(len(d)) {
+				nb = d[off+16 : off+16+nl]
+			} else if nb = fetchFar(off+16, nl); nb == nil {
 				break
 			}
 			seen[off] = true
-			nm := string(d[off+16 : off+16+nl])
+			nm := string(nb)
 			if fnv(nm) == b {
-				rs = append(rs, rec{off, nm, binary.LittleEndian.Uint64(d[off:])})
+				rs = append(rs, rec{off, nm, binary.LittleEndian.Uint64(hd)})
 			}
-			off = le32(d, off+12)
+			off = binary.LittleEndian.Uint32(hd[12:])
 		}
 	}
 	return rs
@@ -276,12 +308,14 @@ func restCase() {
 	if tooManyHangs() {
 		return
 	}
+	defer func() { farPath = "" }()
 	dir, err := os.MkdirTemp(root, "r")
 	if err != nil {
 		panic(err)
 	}
 	defer os.RemoveAll(dir)
 	path := filepath.Join(dir, "c.count")
+	farPath = path
 	meta := metaOfLen(Pick(rnd, []int{10, 60, 200, 512}))
 	H := hdrLenOf(meta)
 	maps = nil
@@ -317,7 +351,7 @@ func restCase() {
 	limit := le32(d, H)
 
 	// ---- damage ----
-	kind := Pick(rnd, []string{"none", "limit", "limit", "limit", "head", "head", "reclen", "next", "next", "next", "shifted", "shifted",
+	kind := Pick(rnd, []string{"none", "limit", "limit", "limit", "limit-huge", "head", "head", "reclen", "next", "next", "next", "shifted", "shifted",
 		"trunc", "trunc", "random-tail", "random-all", "random-spot", "hdrlen"})
 	out.Note("damage-" + kind)
 	pickRec := func() rec {
@@ -333,6 +367,10 @@ func restCase() {
 		v := Pick(rnd, []uint32{0, 40, H + 4, H + 100, H + 4 + 4*numHash, r.off, r.off + 8, r.off + 4, limit - 32, limit + 32,
 			limit + 4, size - 32, size, size + 1, size + pageSize, size + 3*pageSize, 0xFFFFFF00, 0xFFFFC000, 0xFFFFFFF0, 0xFFFFC100})
 		put32(d, H, v)
+	case "limit-huge":
+		// limits within 64 KiB .. 16 KiB of 4 GiB: no 32-bit overflow yet (the overflow test of fix 633eed3
+		// passes), the record is placed just below 4 GiB and the file becomes a sparse 4 GiB file
+		put32(d, H, Pick(rnd, []uint32{0xFFFF0000, 0xFFFF4000, 0xFFFF8020, 0xFFFFA000, 0xFFFFBF00, 0xFFFE0000}))
 	case "head":
 		r := pickRec()
 		b := Pick(rnd, []uint32{fnv(r.name), hotB, fnv("zz-new"), uint32(rnd.Intn(numHash))})
@@ -405,6 +443,9 @@ func restCase() {
 
 	// ---- calls ----
 	nops := 1 + rnd.Intn(3)
+	if kind == "limit-huge" {
+		nops = 1 // the file may be 4 GiB long afterwards
+	}
 	var opsTok []string
 	nrun := 0
 	var cell *vatomic.Uint64
@@ -691,7 +732,12 @@ func planCaseMode(variant string, modeIdx int, steps []planStep) {
 // point of the Add at which the mapping can disappear is covered.
 var failKinds = []string{"mode-off", "weekends-read", "mkdir", "open", "mmap", "short-header"}
 
-func concFailCase(k int, fkind string, hasPtr bool) {
+func concFailCase(k int, fkind string, hasPtr bool) { concFailCaseJ(k, -1, fkind, hasPtr) }
+
+// j >= 0: the rotation is stopped after j of its steps; a LATE Add (one that begins only now) runs to
+// completion; then the rotation and the first Add finish.  An Add that begins after the old mapping
+// has been closed must not go through it.
+func concFailCaseJ(k, j int, fkind string, hasPtr bool) {
 	if tooManyHangs() {
 		return
 	}
@@ -758,6 +804,38 @@ func concFailCase(k int, fkind string, hasPtr bool) {
 		run(t0)
 	}
 	budget := 20000
+	lateUse := 0
+	if j >= 0 {
+		for i := 0; i < j && !s.Done(t1); i++ {
+			run(t1)
+			if !s.Done(t1) && s.Last(t1).Blocked {
+				break
+			}
+		}
+		closedBefore := vatomic.NClosed()
+		evBefore := len(s.Events)
+		t2 := s.Go(func() { c.Add(7) })
+		total += 7
+		for !s.Done(t2) && budget > 0 {
+			budget--
+			run(t2)
+			if !s.Done(t2) && s.Last(t2).Blocked {
+				if !run(t1) && !run(t0) {
+					break
+				}
+			}
+		}
+		if p := s.Last(t2).Panic; p != "" {
+			status = "panic"
+		}
+		if closedBefore > 0 {
+			for _, e := range s.Events[evBefore:] {
+				if strings.HasPrefix(e, "USE-AFTER-UNMAP") {
+					lateUse++
+				}
+			}
+		}
+	}
 	for !s.Done(t1) && budget > 0 {
 		budget--
 		run(t1)
@@ -805,7 +883,7 @@ func concFailCase(k int, fkind string, hasPtr bool) {
 			}
 		}
 	}
-	out.Case(true, "cfail", fkind, I(int64(k)), B(hasPtr), status, B(parked), U(total), U(extra), U(persisted), I(int64(calls)), I(int64(steps)))
+	out.Case(true, "cfail", fkind, I(int64(k)), I(int64(j)), B(hasPtr), status, B(parked), U(total), U(extra), U(persisted), I(int64(calls)), I(int64(steps)), I(int64(lateUse)))
 	out.Note("cfail-" + fkind)
 }
 
@@ -821,6 +899,11 @@ func concFailCases(thorough bool) int {
 				concFailCase(k, fk, hp)
 				n++
 			}
+		}
+		// the rotation stopped at each of its steps, with a late Add of a counter that has a pointer
+		for j := 0; j <= maxK+20; j++ {
+			concFailCaseJ(0, j, fk, true)
+			n++
 		}
 	}
 	return n
